@@ -597,6 +597,24 @@ pub fn run_check(cfg: &CheckCfg) -> CheckResult {
         raw_part(cfg, &mut agg, &mut raw_violations, t0);
     }
 
+    // ---- SimFs fidelity against the real file system (C18) ----
+    if cfg.id == "C18" {
+        let n = if cfg.tier == "thorough" { 3000 } else { 300 };
+        let n = (n as f64 * scale_env()) as usize;
+        let (compared, mismatches) = fidelity(cfg, n);
+        agg.probes
+            .insert("simfs_vs_real_fs_histories_compared".into(), compared as u64);
+        agg.probes
+            .insert("simfs_vs_real_fs_mismatches".into(), mismatches.len() as u64);
+        if !mismatches.is_empty() {
+            eprintln!(
+                "harness error: the simulated file system disagrees with the real one:\n{}",
+                mismatches.join("\n")
+            );
+            return CheckResult { exit: 2 };
+        }
+    }
+
     // ---- witnesses of known findings ----
     let mut known_lines: Vec<String> = vec![];
     let mut violations_out: Vec<String> = vec![];
@@ -810,6 +828,100 @@ pub fn run_check(cfg: &CheckCfg) -> CheckResult {
     CheckResult {
         exit: if n_violations > 0 { 1 } else { 0 },
     }
+}
+
+/// SimFs fidelity: the same fault-free file histories are run once over the simulated file
+/// system and once over the real one (std::fs in a scratch directory, hook seam empty);
+/// outcome, screen bytes and the final store must agree. Runs single-threaded because the
+/// real run needs the process's current directory. Returns (histories compared, mismatches).
+pub fn fidelity(cfg: &CheckCfg, n: usize) -> (usize, Vec<String>) {
+    use crate::world::World;
+    let base = format!("{}/sim/target/scratch/fid-{}", cfg.verif_dir, std::process::id());
+    let old_cwd = std::env::current_dir().ok();
+    let mut compared = 0;
+    let mut mismatches = vec![];
+    for i in 0..n {
+        let mut rng = Rng::new(mix(&[cfg.seed, fxhash("fidelity"), i as u64]));
+        let history = gen_history(Profile::Files, &mut rng, &Avoid::default());
+        // names that cannot be created depend on the host (NODIR/...): fine, both sides lack NODIR
+        let layouts: Vec<Layout> = history.programs.iter().map(|_| Layout::canonical()).collect();
+        let prep = match prepare(&history, &layouts) {
+            Ok(p) => p,
+            Err((pi, o, t)) => {
+                if mismatches.len() < 5 {
+                    mismatches.push(format!("history {} program {} rejected: {}\n{}", i, pi, o.short(), t));
+                }
+                continue;
+            }
+        };
+        // --- simulated ---
+        let sim = run_case(&prep, &history, &[], false, false);
+        let mut fs = initial_store(&history);
+        let mut sim_screens = vec![];
+        let mut sim_outcomes = vec![];
+        for (pi, sc) in history.programs.iter().enumerate() {
+            let w = World::new(vec![], sc.stdin.clone(), fs.clone(), vec![]).shared();
+            let r = crate::runner::run_program(&prep.programs[pi], &w, BUDGET);
+            let wb = w.borrow();
+            sim_screens.push(wb.screen.bytes.clone());
+            sim_outcomes.push(r.outcome.short());
+            fs = wb.fs.clone();
+        }
+        let sim_store = fs.snapshot();
+        let _ = sim;
+        // --- real ---
+        let dir = format!("{}/h{}", base, i);
+        let _ = std::fs::remove_dir_all(&dir);
+        if std::fs::create_dir_all(format!("{}/DIRX", dir)).is_err() {
+            continue;
+        }
+        for (n, c) in &history.files {
+            let _ = std::fs::write(format!("{}/{}", dir, n), c);
+        }
+        if std::env::set_current_dir(&dir).is_err() {
+            continue;
+        }
+        let mut real_screens = vec![];
+        let mut real_outcomes = vec![];
+        for (pi, sc) in history.programs.iter().enumerate() {
+            let mut world = World::new(vec![], sc.stdin.clone(), Default::default(), vec![]);
+            world.real_fs = true;
+            let w = world.shared();
+            let r = crate::runner::run_program(&prep.programs[pi], &w, BUDGET);
+            real_screens.push(w.borrow().screen.bytes.clone());
+            real_outcomes.push(r.outcome.short());
+        }
+        let mut real_store: BTreeMap<String, Vec<u8>> = BTreeMap::new();
+        if let Ok(rd) = std::fs::read_dir(&dir) {
+            for e in rd.flatten() {
+                if e.path().is_file() {
+                    if let Ok(c) = std::fs::read(e.path()) {
+                        real_store.insert(e.file_name().to_string_lossy().to_string(), c);
+                    }
+                }
+            }
+        }
+        if let Some(c) = &old_cwd {
+            let _ = std::env::set_current_dir(c);
+        }
+        let _ = std::fs::remove_dir_all(&dir);
+        compared += 1;
+        if sim_outcomes != real_outcomes || sim_screens != real_screens || sim_store != real_store {
+            if mismatches.len() < 5 {
+                mismatches.push(format!(
+                    "history {}: outcomes sim {:?} real {:?}; screens equal: {}; stores equal: {}\n{}",
+                    i,
+                    sim_outcomes,
+                    real_outcomes,
+                    sim_screens == real_screens,
+                    sim_store == real_store,
+                    prep.emitted.iter().map(|e| e.text.clone()).collect::<Vec<_>>().join("--- next program ---\n")
+                ));
+            }
+        }
+    }
+    let _ = std::fs::remove_dir_all(&base);
+    (compared, mismatches)
 }
 
 /// Corpus and W-IO workloads for C08 (no internal failure) and C15 (VM monitor).
